@@ -983,8 +983,20 @@ for _n, _u in (("degrees", "degree"), ("rad2deg", "degree"), ("radians", "radian
     add("ufunc", _n, plain=V(lambda g: C(QA("A", g.gen(g.shape()))), U({}, unit=_u), ref=_ident,
                              offset=False))
 
-_bin("add", "X", "X", KX)
-_bin("subtract", "X", "X", KX)
+def _bare_number_next_to_dimensionless(left):
+    """a plain number (as NumPy hands it out: a 0-d value) combined with a dimensionless quantity written in
+    any dimensionless unit (percent, ppm ...): the number counts as dimensionless, the unit's scale applies"""
+    def b(g):
+        s = QA("D", g.gen(()), always_bare=True)
+        a = QA("H", g.gen(g.shape()))
+        return C(s, a) if left else C(a, s)
+    return b
+
+
+for _n in ("add", "subtract"):
+    _bin(_n, "X", "X", KX, extra={
+        "bare_number_left": V(_bare_number_next_to_dimensionless(True), DIMLESS, err=False, offset=False),
+        "bare_number_right": V(_bare_number_next_to_dimensionless(False), DIMLESS, err=False, offset=False)})
 _bin("maximum", "X", "X", KX, sep=True)
 _bin("minimum", "X", "X", KX, sep=True)
 _bin("hypot", "X", "X", KX)
